@@ -87,18 +87,18 @@ def worlds():
     # 4 diamond: main imports A and B, both import C; C and A imported again; B derives under another key type
     main = N("schema", {}, [
         N("abstracttype", {"name": "abs1"}),
-        N("import", {"package": "zcvpkg_a"}),
-        N("import", {"package": "zcvpkg_b"}),
-        N("import", {"package": "zcvpkg_c"}),
-        N("import", {"package": "zcvpkg_a", "file": "component.xml"}),
+        N("import", {"package": "zcvsd_a"}),
+        N("import", {"package": "zcvsd_b"}),
+        N("import", {"package": "zcvsd_c"}),
+        N("import", {"package": "zcvsd_a", "file": "component.xml"}),
         N("sectiontype", {"name": "mine", "extends": "pb1"}, [N("key", {"name": "mk"})]),
         N("multisection", {"type": "abs1", "name": "*", "attribute": "impls"}),
         N("section", {"type": "mine", "name": "+", "attribute": "mine"})])
     ca = N("component", {}, [
-        N("import", {"package": "zcvpkg_c"}),
+        N("import", {"package": "zcvsd_c"}),
         N("sectiontype", {"name": "pa1", "extends": "pc1", "implements": "abs1"}, [N("key", {"name": "ka"})])])
     cb = N("component", {"prefix": "zcv.dts"}, [
-        N("import", {"package": "zcvpkg_c"}),
+        N("import", {"package": "zcvsd_c"}),
         N("sectiontype", {"name": "pb1", "extends": "pc1", "keytype": "identifier", "datatype": ".wrap"}, [
             N("key", {"name": "kb", "datatype": "integer"})])])
     cc = N("component", {}, [
@@ -106,35 +106,35 @@ def worlds():
             N("key", {"name": "kc"}),
             N("key", {"name": "+", "attribute": "rest"}, [D("Gamma", "g"), D("delta", "d")])])])
     out.append(("main.xml", {"main.xml": main},
-                {("zcvpkg_a", "component.xml"): ca, ("zcvpkg_b", "component.xml"): cb,
-                 ("zcvpkg_c", "component.xml"): cc}))
+                {("zcvsd_a", "component.xml"): ca, ("zcvsd_b", "component.xml"): cb,
+                 ("zcvsd_c", "component.xml"): cc}))
     # 5 import/@src (types only, the other schema's items are not merged) + a relative package name
     other = N("schema", {"keytype": "identifier"}, [
         N("sectiontype", {"name": "ot1", "keytype": "identifier"}, [N("key", {"name": "Ok1"})]),
         N("key", {"name": "ignored"})])
-    main = N("schema", {"prefix": "zcvpkg_a"}, [
+    main = N("schema", {"prefix": "zcvsd_a"}, [
         N("import", {"src": "other.xml"}),
         N("import", {"package": ".sub"}),
         N("sectiontype", {"name": "p2", "extends": "ot1"}, [N("key", {"name": "own"})]),
         N("multisection", {"type": "p2", "name": "*", "attribute": "twos"}),
         N("section", {"type": "subt", "name": "*", "attribute": "sub"})])
     sub = N("component", {}, [N("sectiontype", {"name": "subt"}, [N("key", {"name": "sk", "datatype": "boolean"})])])
-    out.append(("main.xml", {"main.xml": main, "other.xml": other}, {("zcvpkg_a.sub", "component.xml"): sub}))
+    out.append(("main.xml", {"main.xml": main, "other.xml": other}, {("zcvsd_a.sub", "component.xml"): sub}))
     # 6 bases that import the same component along two paths; extender derives from a component type
     b1 = N("schema", {}, [
         N("abstracttype", {"name": "abs1"}),
-        N("import", {"package": "zcvpkg_c"}),
+        N("import", {"package": "zcvsd_c"}),
         N("key", {"name": "from-b1"})])
     b2 = N("schema", {}, [
-        N("import", {"package": "zcvpkg_c"}),
+        N("import", {"package": "zcvsd_c"}),
         N("sectiontype", {"name": "t2", "extends": "pc1"}, [N("multikey", {"name": "m2"})])])
     cc2 = N("component", {}, [
         N("sectiontype", {"name": "pc1", "implements": "abs1"}, [N("key", {"name": "kc", "default": "c"})])])
     main = N("schema", {"extends": "b2.xml b1.xml"}, [
-        N("import", {"package": "zcvpkg_c"}),
+        N("import", {"package": "zcvsd_c"}),
         N("sectiontype", {"name": "t3", "extends": "t2", "implements": "abs1"}, []),
         N("multisection", {"type": "abs1", "name": "+", "attribute": "impls"})])
-    out.append(("main.xml", {"main.xml": main, "b1.xml": b1, "b2.xml": b2}, {("zcvpkg_c", "component.xml"): cc2}))
+    out.append(("main.xml", {"main.xml": main, "b1.xml": b1, "b2.xml": b2}, {("zcvsd_c", "component.xml"): cc2}))
     return out
 
 
